@@ -317,6 +317,7 @@ func runC16(c *gen.Ctx) error {
 	// ---- the glue around the slots: the reference client's per-call hand-off, and the
 	// server-side middleware handing over a trace that must be final
 	c16WireGen(c)
+	c16AsyncGen(c)
 	c16FinalGen(c)
 	// ---- exactly-once on a traced HTTP/2 connection under every tear-down sequence
 	c16TeardownGen(c)
